@@ -356,9 +356,29 @@ def sample(ctx, budget=1.0, hint=None, broken=None):
                     rad = complex(1, r.choice([1, 1, 0.5, 2])) * abs(z1 - z0) * r.uniform(0.52, 0.8)
                 rot = r.choice([0, 0, 90, 180, 270, 30, 45.5, -60, 200.5, 725.0, r.uniform(-360, 360)])
                 seg = P.Arc(z0, rad, rot, (r.random() < 0.5) or kind == 'arc-large', r.random() < 0.5, z1)
-        desc = repr(seg)
+        derived = ''
+        if r.random() < 0.35:
+            # an object obtained through the library's own operations instead of the constructor
+            derived = r.choice(['rotated', 'translated', 'scaled', 'reversed', 'cropped', 'warm+reversed'])
+            try:
+                if derived == 'rotated':
+                    seg = seg.rotated(r.choice([30, 90, -45.5, 123.0, 180]))
+                elif derived == 'translated':
+                    seg = seg.translated(complex(r.uniform(-3, 3), r.uniform(-3, 3)) * scale)
+                elif derived == 'scaled':
+                    seg = seg.scaled(r.choice([0.5, 2.0, -1.5]))
+                elif derived == 'cropped':
+                    t0_ = r.uniform(0, 0.5)
+                    seg = seg.cropped(t0_, r.uniform(t0_ + 0.2, 1))
+                else:
+                    if derived.startswith('warm'):
+                        seg.length(); seg.bbox()
+                    seg = seg.reversed()
+            except Exception:
+                derived = ''
+        desc = repr(seg) + ((' [obtained by %s]' % derived) if derived else '')
         n_eval += 1
-        nontriv.add((kind, scale))
+        nontriv.add((kind, scale, derived))
         pts = np.array([seg.point(t) for t in ts])
         check(seg, desc, kind.split('-')[0], pts)
         if len(samples) < 3:
